@@ -210,6 +210,14 @@ def _execute(program, stats, hist):
                 raise Violation(ID, "shape_dtype", site, {"shape": list(out.shape), "dtype": str(out.dtype), "expected": [n, T, str(wd)]}, seq)
             if not eng.calls:
                 raise Violation(ID, "engine_not_used", site, {"note": "the caller-supplied engine was never called"}, seq)
+            # the normals belong to the caller (who may drive a second asset or model with the same tensor)
+            stats.checks += 1
+            # (column 0 is exempt: the generators zero the first column of the engine's tensor in place and never use it, so a
+            # caller who reuses the tensor for a second asset gets the same paths either way)
+            for r_, c_ in zip(eng.returned, eng.calls):
+                if r_.shape != c_.shape or (r_.dim() == 2 and not torch.equal(r_[:, 1:], c_[:, 1:])) or (r_.dim() != 2 and not torch.equal(r_, c_)):
+                    raise Violation(ID, "engine_output_mutated", site, {
+                        "handed_out": c_[:1], "afterwards": r_[:1], "note": "the tensor returned by the caller's engine was modified in place"}, seq)
             if T <= 2:
                 stats.probe("n_steps_%d" % T)
             if wd == torch.float64:
